@@ -378,6 +378,14 @@ func newHistRun(c *histCase, tr *Trace) *histRun {
 		}
 	}
 	var bkArg tally.Buckets = bk
+	// a decoy histogram under the same root whose specification has the same kind, the same length and the same
+	// (commutative) bucket-cache identity but different bounds: the histogram under test must still get its own
+	if decoy := collidingDecoy(bk); decoy != nil {
+		r.scope.Histogram("decoy", decoy)
+		if r.cach != nil {
+			r.cach.take()
+		}
+	}
 	r.h = r.scope.Histogram("h", bkArg)
 	alloc := [][]int{}
 	if r.cach != nil {
@@ -446,7 +454,7 @@ func (r *histRun) rep(tr *Trace) {
 	case "plain":
 		tally.VerifReportOnce(r.scope)
 		for _, cl := range r.plain.take() {
-			if cl.Hist != nil {
+			if cl.Hist != nil && cl.Name == "h" {
 				out = append(out, r.tupleToks(cl.Hist))
 			}
 		}
@@ -464,6 +472,9 @@ func (r *histRun) rep(tr *Trace) {
 		// compares per upper bound only, see TRepSnap.
 		snap := r.ts.Snapshot()
 		for _, h := range snap.Histograms() {
+			if h.Name() != "h" {
+				continue // the decoy
+			}
 			if r.c.kind == "value" {
 				for up, n := range h.Values() {
 					u := r.c.vt.boundTok(up)
@@ -595,4 +606,38 @@ func init() {
 		writeMeta(cm.out, M{"cases": cases, "events": tr.N, "records": recs, "distinct": len(distinct), "samples": samples,
 			"K": *k, "L": *maxLen, "specs": len(specs), "value_tables": len(vts), "duration_tables": len(dts)})
 	})
+}
+
+// collidingDecoy returns buckets of the same kind and length as bk with the same bucket-cache identity but
+// different bounds (nil when there is none of that simple form): the identity is a sum over the elements, so
+// moving one unit from one element to another keeps it.
+func collidingDecoy(bk tally.Buckets) tally.Buckets {
+	switch b := bk.(type) {
+	case tally.DurationBuckets:
+		if len(b) < 2 || b[0] == math.MaxInt64 || b[1] == math.MinInt64 {
+			return nil
+		}
+		d := append(tally.DurationBuckets{}, b...)
+		d[0], d[1] = d[0]+1, d[1]-1
+		if tally.VerifBucketsIdentity(d) != tally.VerifBucketsIdentity(b) || (d[0] == b[1] && d[1] == b[0]) {
+			return nil
+		}
+		return d
+	case tally.ValueBuckets:
+		if len(b) < 2 {
+			return nil
+		}
+		d := append(tally.ValueBuckets{}, b...)
+		d[0], d[1] = math.Float64frombits(math.Float64bits(d[0])+1), math.Float64frombits(math.Float64bits(d[1])-1)
+		for _, v := range d[:2] {
+			if math.IsNaN(v) || math.IsInf(v, 0) {
+				return nil
+			}
+		}
+		if tally.VerifBucketsIdentity(d) != tally.VerifBucketsIdentity(b) || (d[0] == b[1] && d[1] == b[0]) {
+			return nil
+		}
+		return d
+	}
+	return nil
 }
